@@ -64,3 +64,113 @@ def bounded(tier, seed):
 def replay_case(case):
     from g3dvc import bounded as B
     return B.replay_intersection(case)
+
+
+# ---------------------------------------------------------------------------
+# aux_calc helpers over symbolic coordinates
+# ---------------------------------------------------------------------------
+
+def segment_from_points_harness(n):
+    """get_segment_from_point_list on n collinear points p_i = p0 + t_i (p1 - p0) (t_0 = 0, t_1 = 1, the others symbolic): the smallest segment containing all of them"""
+    from g3dvc.sym import And, Or, Not, Implies, Iff
+    from g3dvc import spec as SP
+    from contracts import common as C
+
+    def h(vc):
+        import importlib
+        g = C.G()
+        AUX = importlib.import_module("Geometry3D.calc.aux_calc")
+        p0 = C.witness(vc, "p0")
+        d = C.witness(vc, "d")
+        vc.assume(SP.vnonzero(d), "the first two points differ")
+        ts = [0, 1] + [vc.real("t%d" % i) for i in range(2, n)]
+        pts = [g.Point(*SP.add(p0, SP.scale(t, d))) for t in ts]
+        L = SP.norm2(d)
+        if vc.symbolic:
+            for i in range(2, n):
+                vi = SP.sub(SP.vec(pts[i]), SP.vec(pts[0]))
+                v0 = SP.sub(SP.vec(pts[1]), SP.vec(pts[0]))
+                vc.hint("v%d.v0 = t%d |v0|^2" % (i, i), SP.dot(vi, v0) == ts[i] * SP.norm2(v0))
+                vc.ghost(SP.dot(vi, v0))
+            v0 = SP.sub(SP.vec(pts[1]), SP.vec(pts[0]))
+            vc.ghost(SP.norm2(v0))
+            for k in range(3):
+                vc.hint("|v0|^2 >= component^2", SP.norm2(v0) >= v0[k] * v0[k])
+        out = vc.call(AUX.get_segment_from_point_list, list(pts))
+        vc.ensure("get_segment_from_point_list(%d collinear points) does not raise" % n, out.returned)
+        if not out.returned:
+            vc.note(repr(out.value))
+            return
+        s = out.value
+        ok = isinstance(s, g.Segment)
+        vc.ensure("returns a Segment", ok)
+        if not ok:
+            return
+        a, b = SP.vec(s.start_point), SP.vec(s.end_point)
+        vc.ensure("both end points are among the given points", And(Or(*[SP.veq(a, SP.vec(p)) for p in pts]), Or(*[SP.veq(b, SP.vec(p)) for p in pts])))
+        # in the parametrisation of the carrier the segment is [min t, max t]
+        ta = [vc.real("unused")] if False else None
+        for i, (p, t) in enumerate(zip(pts, ts)):
+            # p_i lies between the end points: (p_i - a).(b - a) in [0, |b - a|^2] and on the carrier (by construction)
+            e = SP.sub(b, a)
+            q = SP.dot(SP.sub(SP.vec(p), a), e)
+            vc.ensure("given point %d lies on the returned segment" % i, And(SP.gez(q), SP.gez(SP.norm2(e) - q)))
+
+    return h
+
+
+def h_segment_from_points_rejects(vc):
+    """a point off the line of the first two raises"""
+    from g3dvc.sym import And, Or, Not
+    from g3dvc import spec as SP
+    from contracts import common as C
+    import importlib
+    g = C.G()
+    AUX = importlib.import_module("Geometry3D.calc.aux_calc")
+    p0, p1, p2 = C.P(vc, "p0"), C.P(vc, "p1"), C.P(vc, "p2")
+    vc.assume(Not(SP.collinear(SP.sub(SP.vec(p2), SP.vec(p0)), SP.sub(SP.vec(p1), SP.vec(p0)))), "the third point is off the line through the first two")
+    out = vc.call(AUX.get_segment_from_point_list, [p0, p1, p2])
+    vc.ensure("non-collinear points raise ValueError", out.raised(ValueError))
+    for k in (0, 1):
+        out = vc.call(AUX.get_segment_from_point_list, [p0, p1][:k])
+        vc.ensure("fewer than two points raise ValueError", out.raised(ValueError))
+    out = vc.call(AUX.points_in_a_line, [p0, p1, p2])
+    vc.ensure("points_in_a_line is False for them", out.returned and out.value is False)
+
+
+def h_projection_lengths(vc):
+    from g3dvc.sym import And
+    from g3dvc import spec as SP
+    from contracts import common as C
+    import importlib
+    AUX = importlib.import_module("Geometry3D.calc.aux_calc")
+    u, v = C.V(vc, "u"), C.V(vc, "v")
+    uv, vv = SP.vec(u), SP.vec(v)
+    vc.assume(SP.vnonzero(vv), "v != 0")
+    out = vc.call(AUX.get_projection_length, u, v)
+    vc.ensure("get_projection_length does not raise", out.returned)
+    if out.returned:
+        r = out.value
+        vc.ensure("projection length^2 |v|^2 = (u.v)^2, same sign as u.v", And(SP.eq(r * r * SP.norm2(vv), SP.dot(uv, vv) * SP.dot(uv, vv)), SP.gez(r * SP.dot(uv, vv))))
+    out = vc.call(AUX.get_relative_projection_length, u, v)
+    vc.ensure("get_relative_projection_length does not raise", out.returned)
+    if out.returned:
+        vc.ensure("relative projection length * |v|^2 = u.v", SP.eq(out.value * SP.norm2(vv), SP.dot(uv, vv)))
+
+
+_groups_set = groups
+
+
+def groups(tier):
+    from contracts import common as C
+    from props.C01 import coord_stubs
+    cs = coord_stubs() + [(C.T_LENGTH, C.x_length)]
+    AUXM = "Geometry3D.calc.aux_calc:"
+    gs = _groups_set(tier)
+    for n in (2, 3, 4):
+        gs.append(Group("get_segment_from_point_list[%d collinear points]" % n, segment_from_points_harness(n), [AUXM + "get_segment_from_point_list", AUXM + "get_relative_projection_length"],
+                        stubs=cs, world="COORD", timeout_s=600, prove_ms=30000))
+    gs.append(Group("get_segment_from_point_list / points_in_a_line reject non-collinear and too few points", h_segment_from_points_rejects, [AUXM + "get_segment_from_point_list", AUXM + "points_in_a_line"],
+                    stubs=cs, world="COORD", timeout_s=300))
+    gs.append(Group("projection lengths", h_projection_lengths, [AUXM + "get_projection_length", AUXM + "get_relative_projection_length"], stubs=[(C.T_LENGTH, C.x_length)], world="COORD", timeout_s=300))
+    return gs
